@@ -155,8 +155,8 @@ def heom_repeat(cx, nbath, depth):
 
 
 @harness("C15", "tensor_construction_inputs",
-         quick=[dict(theory="redfield"), dict(theory="lindblad"), dict(theory="foerster")],
-         thorough=[dict(theory=t) for t in ("redfield", "tdredfield", "lindblad", "foerster", "redfield_foerster")],
+         quick=[dict(theory="redfield"), dict(theory="lindblad"), dict(theory="foerster"), dict(theory="lindblad_op"), dict(theory="redfield_op")],
+         thorough=[dict(theory=t) for t in ("redfield", "tdredfield", "lindblad", "foerster", "redfield_foerster", "lindblad_op", "redfield_op")],
          functions=[D + "redfieldtensor.py:RedfieldRelaxationTensor.__init__",
                     D + "tdredfieldtensor.py:TDRedfieldRelaxationTensor._implementation",
                     D + "lindbladform.py:LindbladForm._implementation",
@@ -179,7 +179,7 @@ def tensor_construction_inputs(cx, theory):
     if cx.sym:
         from symnum import linalg
         linalg.use_eigh(eigen_equation=False)
-    if theory == "lindblad":
+    if theory in ("lindblad", "lindblad_op"):
         sbi.rates = [cx.real("g0", 0.0, 0.1)]
 
     def build():
@@ -194,6 +194,28 @@ def tensor_construction_inputs(cx, theory):
         ham.JR = cx.real_symmetric("JR", N, zero_diag=True)
         ham._has_remainder_coupling = True
         return RedfieldFoersterRelaxationTensor(ham, sbi)
+    if theory in ("lindblad_op", "redfield_op"):
+        # operator form: build, use the object (explicit basis change), build again from the same inputs
+        cls = LindbladForm if theory == "lindblad_op" else RedfieldRelaxationTensor
+        first = cls(ham, sbi, as_operators=True)
+        Km1, Lm1 = numpy.array(first._Km).copy(), numpy.array(first._Lm).copy()
+        if cx.sym:
+            from symnum import linalg, npatch
+            S = linalg.givens_orthogonal(N, "T")
+            npatch.tag_inverse(S, S.T.copy())
+        else:
+            c, s_ = cx.real("T.c0", 0.3, 0.9), cx.real("T.s0", 0.3, 0.9)
+            nrm = (c * c + s_ * s_) ** 0.5
+            S = numpy.array([[c / nrm, -s_ / nrm], [s_ / nrm, c / nrm]])
+            for i in range(N):
+                S[:, i] *= (1.0 if cx.real("T.sg%d" % i) >= 0 else -1.0)
+        first.transform(S)
+        cx.prove_eq("input_unchanged_K_after_transform", sbi.KK, K0)
+        cx.prove_eq("input_unchanged_H_after_transform", ham._data, H0)
+        second = cls(ham, sbi, as_operators=True)
+        cx.prove_eq("rebuilt_same_Km", second._Km, Km1, tol=1e-9)
+        cx.prove_eq("rebuilt_same_Lm", second._Lm, Lm1, tol=1e-9)
+        return
     a = build()._data.copy()
     JR0 = ham.JR.copy() if getattr(ham, "_has_remainder_coupling", False) else None
     b = build()._data.copy()
